@@ -229,7 +229,10 @@ def exec_case(case, facts, src=None):
     sorted_sheets = sorted(s["name"] for s in world["sheets"])
     for fault in case["faults"]:
         cfg, ods, opts = faults.apply_fault(world, base_opts, fault)
-        changed = (cfg != base_cfg) or (ods != base_ods) or ({k: v for k, v in opts.items()} != base_opts)
+        changed = (cfg != base_cfg) or (ods != base_ods) or bool(opts.get("cmd_fault")) or (runner.build_argv(opts, "c", "i") != runner.build_argv(base_opts, "c", "i"))
+        if not changed:
+            # a fault that did not reach the stored bytes or the command line must never be judged: the run would be a valid one
+            raise runner.HarnessError("fault %r left config, spreadsheet and argv unchanged" % (fault,))
         w = runner.World("c12f")
         try:
             core.fix_outdir(w, opts)
